@@ -50,7 +50,7 @@ fn kinds_where(f: impl Fn(&crate::exec::KindInfo) -> bool) -> Vec<KindId> {
 }
 fn small_kinds() -> Vec<KindId> {
     // every kind except the element-size variants
-    ALL_KINDS.iter().copied().filter(|k| !matches!(k, KindId::OVec24 | KindId::OArray24 | KindId::Iter24 | KindId::OVecBox | KindId::OArrayBox | KindId::IterBox | KindId::OVecZst | KindId::OArrayZst | KindId::SliceZst | KindId::RangeX)).collect()
+    ALL_KINDS.iter().copied().filter(|k| !matches!(k, KindId::OVec24 | KindId::OArray24 | KindId::Iter24 | KindId::OVecBox | KindId::OArrayBox | KindId::IterBox | KindId::OVecZst | KindId::OArrayZst | KindId::SliceZst | KindId::RangeX | KindId::IterNonFusedExact)).collect()
 }
 
 pub fn suite(name: &str, thorough: bool) -> Suite {
@@ -87,6 +87,7 @@ pub fn suite(name: &str, thorough: bool) -> Suite {
                 // thin constructor variants of the slice / range iterators are left to the thorough tier
                 s.kinds.retain(|k| !matches!(k, KindId::ArrayRef | KindId::ClonedArrayRef | KindId::ClonedVecRef | KindId::RangeInto));
             }
+            s.kinds.push(KindId::IterNonFusedExact);
             s.alphabet = alphabet(&["N", "I", "C2:a", "C3:1", "CL1:0", "BN2", "BXa", "BX1", "BD", "EF2", "FE1", "V", "FO3", "L", "S", "CHh:1"]);
             // short ranges near the top of usize (cumulative requests stay below usize::MAX with one chunk of usize::MAX/2)
             s.extra_units = [(3usize, 5usize), (6, 8), (4, 5), (7, 8)].iter().map(|(a, b)| (KindId::RangeX, a * 16 + b)).collect();
